@@ -7,7 +7,7 @@ from lang import *  # noqa
 from props.common import sub_rng, diff_runs, replay_generic, corpus_cases
 
 replay = replay_generic
-VALS = ['1', '-2.5', '0', '"3"', '"x"', '[]', '[3, 1, 2]', 'arr3', '{}', 'fn1', NIL, TRUE, '0.5', '2.5', '-0.5', '1.5', '2 ** 1024', '2 ** 53', '"১.৫"', '-(2 ** 1024)', '2 ** 1024 - 2 ** 1024']
+VALS = ['1', '-2.5', '0', '"3"', '"x"', '[]', '[3, 1, 2]', '[[3, 1, 2]]', '[[]]', '[[[4, 5]]]', 'arr3', '{}', 'fn1', NIL, TRUE, '0.5', '2.5', '-0.5', '1.5', '2 ** 1024', '2 ** 53', '"১.৫"', '-(2 ** 1024)', '2 ** 1024 - 2 ** 1024']
 
 
 def num_src(x):
